@@ -318,16 +318,18 @@ def delayCore (s : SeqState) (d : Int) (n : ChName) (atRest : Bool) : Raw :=
 def alignLoop (tf : Int) (lastTs : List (ChName × Int)) (s : SeqState) : Raw :=
   match lastTs with
   | [] => done s
-  | (n, t) :: rest =>
-    let delta := tf - t
-    if delta > 0 then
-      match s.getChan n with
-      | none => fail s .notDeclared
-      | some c =>
+  | (n, _) :: rest =>
+    match s.getChan n with
+    | none => fail s .notDeclared
+    | some c =>
+      -- measured from the channel's current (bare) end, where the delay is appended
+      -- (repair of F1; it used to be measured from the end including fall time)
+      let delta := tf - c.getDuration false
+      if delta > 0 then
         match c.adjust delta.toNat with
         | .error e => fail s e
         | .ok d => (delayCore s d n false).bind (alignLoop tf rest)
-    else alignLoop tf rest s
+      else alignLoop tf rest s
 
 /-- Store a successful building call. -/
 def store (op : Op) (r : Raw) : Raw :=
